@@ -1,6 +1,7 @@
 package main
 
 import (
+	"sort"
 	"fmt"
 	"go/ast"
 	"go/constant"
@@ -703,6 +704,90 @@ func checkC20(c *Ctx, r *Report) {
 				}
 			}
 			r.Check(okGuard, "C20.R6", "Harden: cross-site refusal dominates next.ServeHTTP", c.InstrPos(next), detail, "next.ServeHTTP is not guarded by a branch on both Origin and Sec-Fetch-Site whose refusing side answers 403")
+			// the predicate itself, as a truth table over the header tests: the next handler is reached exactly when
+			// the request has no Origin, or its Sec-Fetch-Site is absent / same-origin / same-site — and it is not a
+			// CORS preflight (OPTIONS with an Origin). No other input (a special-cased Origin value, another header)
+			// may open the gate.
+			bs := &boolSummer{li: li}
+			paths, okP := bs.pathsTo(cl, next)
+			if !okP || len(paths) == 0 {
+				r.Undecided("C20.R6", "Harden: cross-site predicate table", c.InstrPos(next), "the paths to next.ServeHTTP could not be summarised (loop or too many branches)")
+				continue
+			}
+			set := map[string]bool{}
+			for _, p := range paths {
+				for a := range p.cond {
+					set[a] = true
+				}
+			}
+			var atoms []string
+			for a := range set {
+				atoms = append(atoms, a)
+			}
+			sort.Strings(atoms)
+			classify := func(a string) string {
+				isO := strings.Contains(a, `"Origin")`)
+				isS := strings.Contains(a, `"Sec-Fetch-Site")`)
+				switch {
+				case isO && strings.HasSuffix(a, `==""`):
+					return "originEmpty"
+				case isS && strings.HasSuffix(a, `==""`):
+					return "siteEmpty"
+				case isS && strings.HasSuffix(a, `=="same-origin"`):
+					return "sameOrigin"
+				case isS && strings.HasSuffix(a, `=="same-site"`):
+					return "sameSite"
+				case strings.HasSuffix(a, `.Method=="OPTIONS"`):
+					return "options"
+				}
+				return ""
+			}
+			var badRows []string
+			nRows := 0
+			if len(atoms) <= 12 {
+				for m := 0; m < 1<<len(atoms); m++ {
+					as := map[string]bool{}
+					for i, a := range atoms {
+						as[a] = m&(1<<i) != 0
+					}
+					v := specVars(as, classify)
+					// one header value cannot equal two different constants
+					nSite := 0
+					for _, k := range []string{"siteEmpty", "sameOrigin", "sameSite"} {
+						if v[k] {
+							nSite++
+						}
+					}
+					if nSite > 1 {
+						continue
+					}
+					nRows++
+					reach := false
+					for _, p := range paths {
+						match := true
+						for a, val := range p.cond {
+							if as[a] != val {
+								match = false
+								break
+							}
+						}
+						if match {
+							reach = true
+							break
+						}
+					}
+					want := (v["originEmpty"] || v["siteEmpty"] || v["sameOrigin"] || v["sameSite"]) && !(v["options"] && !v["originEmpty"])
+					if reach != want {
+						badRows = append(badRows, fmt.Sprintf("[%s] reaches the handler=%v, want %v", lits(as).String(), reach, want))
+					}
+				}
+			} else {
+				badRows = append(badRows, fmt.Sprintf("%d branch atoms: table too large", len(atoms)))
+			}
+			if len(badRows) > 3 {
+				badRows = append(badRows[:3], fmt.Sprintf("… %d more rows", len(badRows)-3))
+			}
+			r.Check(len(badRows) == 0, "C20.R6", "Harden: cross-site predicate table", c.InstrPos(next), fmt.Sprintf("%d rows over %v", nRows, atoms), "the gate in front of the API handlers opens for requests it must refuse (or depends on an input other than 'no Origin' / Sec-Fetch-Site absent, same-origin, same-site / preflight): "+strings.Join(badRows, "; "))
 		}
 	}
 }
